@@ -43,7 +43,10 @@ warnings.simplefilter("ignore")
 ID = "C02"
 DESIGN_REF = "DESIGN.md section 5, C02; design/C02.md; design/REFTOOLS.md"
 LEAN_TARGETS = ["PV.C02.Thm", "PV.C02.RThm", "PV.C02.RProgThm", "PV.C02.FStrLex", "PV.C02.FStrField", "PV.C02.FStrThm", "PV.C02.FStrBody", "PV.C02.FStrThm1", "PV.C02.FStrRoot",
-                "PV.C02.FSoundNodes", "PV.C02.FSoundIdx", "PV.C02.FSoundSteps", "PV.C02.FStrFull"]
+                "PV.C02.FSoundNodes", "PV.C02.FSoundIdx", "PV.C02.FSoundSteps", "PV.C02.FStrFull",
+                "PV.C02.FProgTie", "PV.C02.FProgPlain", "PV.C02.FProgSoundBase", "PV.C02.FProgSoundSeq",
+                "PV.C02.FProgSoundNodes", "PV.C02.FProgSoundItems", "PV.C02.FProgSound1", "PV.C02.FProgSound2",
+                "PV.C02.FProgSound3", "PV.C02.FProgSound4", "PV.C02.FProgThm"]
 DRIVER = "drv_c02"
 HARNESS = {"bin": "pvh_c01", "features": "all-ranges"}
 THEOREMS = [
@@ -94,6 +97,11 @@ THEOREMS = [
     "PV.C02.parseR_rangesOk_fstr",
     "PV.C02.parseRExpression_rangesOk_fstr",
     "PV.C02.fplain1_of_plain",
+    # f-string literals anywhere in a PROGRAM (one level): the program-level induction re-run over F.soundAt
+    "PV.C02.F.compSAt",
+    "PV.C02.F.programBody_sound",
+    "PV.C02.parseRProgram_rangesOk_fstr",
+    "PV.C02.fplainM1_of_plainM",
     # about the model of range computation for whole programs (ranged twin of the reference program parser PV.Prog)
     "PV.C02.parseRProgramFuel_erase",
     "PV.C02.parseRProgram_erase",
@@ -134,8 +142,8 @@ TRUSTED = [
     "tools/props/c11.py, tools/props/prog.py (generators, corpus, attachment rewriting), tools/shapes.py, "
     "tools/gen_program.py, tools/refsweep.py, harness/src/astdump.rs, harness/src/bin/pvh_c01.rs, lean/Drv/C02.lean, "
     "lean/Drv/C02Prog.lean, lean/PV/C02/Fwd.lean and the `ftie_tails` tactic of lean/PV/C02/FSoundSteps.lean (proof-producing "
-    "tactics; their output is kernel-checked), tools/c02_gen_fsound.py / tools/c02_gen_fsteps.py (generators of "
-    "lean/PV/C02/FSound*.lean, whose output Lean checks), "
+    "tactics; their output is kernel-checked), tools/c02_gen_fsound.py / tools/c02_gen_fsteps.py / tools/c02_gen_fprog.py "
+    "(generators of lean/PV/C02/FSound*.lean and FProg*.lean, whose output Lean checks), "
     "tools/c02_gen_nodes.py (generator of lean/PV/C02/RProgSoundNodes.lean, whose output Lean checks)",
 ]
 PARTIAL = [
@@ -202,11 +210,18 @@ PARTIAL = [
     "namespace PV.C02.F (FSoundNodes / FSoundIdx / FSoundSteps, GENERATED from SoundNodes / SoundIdx / SoundSteps by "
     "tools/c02_gen_fsound.py and tools/c02_gen_fsteps.py) with the tie FTie carried by every function (hypothesis on "
     "the cursor, conclusion on the rest); F.soundAt is the induction, strings_res_fstr1 its f-string step",
-    "not proved: (a) an f-string nested INSIDE a replacement field (`f'{f\"{x}\"}'`: fplain1 false; needs the tie for "
-    "the inner tokens — lex_lockstep strengthened from lengths to token texts — and the induction hypothesis "
-    "quantified over the span table); (b) the program level with f-strings (parseRProgram_rangesOk_partial still "
-    "demands plainM: RProgSound1-4 consume the expression level through soundAt, they would have to be re-run over "
-    "F.soundAt with the tie on program tokens); the listed finding fstring-field-range-after-crlf is reproduced "
+    "proved (unbounded, for the MODEL of whole programs): parseRProgram_rangesOk_fstr — for every source, mode, every "
+    "spanned program token list that tiles the source (TiledP) and whose f-string tokens are tied to it (FTiedP), every "
+    "accepted program that is `fplainM1` passes rangesOk (the WHOLE tree, as in parseRProgram_rangesOk_partial, plus "
+    "every JoinedStr, piece, format spec and replacement-field expression). fplainM1 = plainM with fplain1 at every "
+    "expression position: f-string literals anywhere in the program — parameter defaults, class keywords, decorators, "
+    "match-case guards, return / assignment values … — their replacement-field expressions f-string-free. "
+    "fplainM1_of_plainM: it extends plainM. By re-running RProgSound1-4 and their vocabulary in PV.C02.F over "
+    "F.soundAt with the tie carried by every function (FProg*.lean GENERATED by tools/c02_gen_fprog.py; "
+    "FProgTie.lean, FProgThm.lean by hand)",
+    "not proved: an f-string nested INSIDE a replacement field (`f'{f\"{x}\"}'`: fplain1 / fplainM1 false), in both "
+    "models; needs the tie for the inner tokens — lex_lockstep strengthened from lengths to token texts — and the "
+    "induction hypothesis quantified over the span table (and all smaller fuels); the listed finding fstring-field-range-after-crlf is reproduced "
     "by the program model per input (real token values) but lies outside the lexer model's domain",
     "the bridges tiled_of_lexer / tiledP_of_lexer relate token SPANS of the lexer model to `Tiled`; token values of "
     "PV.Lexer.Tok and PV.Expr.Tok are related only by correspondence streams",
@@ -221,9 +236,10 @@ TECHNIQUE = ("Lean 4: executable models of the range computation of the WHOLE gr
 LEVEL_TEXT = ("Machine-checked Lean 4, for every input and fuel: (1) erasing the ranges computed by the models parseR / "
               "parseRProgram gives exactly the reference parsers parseRef (C11) / parseProgram (PROG), so acceptance and "
               "trees coincide; (2) for token spans that tile the source (proved of the lexer model by C05, bridged by "
-              "tiled_of_lexer / tiledP_of_lexer) every tree that the models return — without f-string pieces; for single "
-              "expressions also WITH f-string literals anywhere in the tree when the f-string tokens are tied to the source "
-              "(FTied) and their replacement-field expressions are f-string-free (parseR_rangesOk_fstr) — a single "
+              "tiled_of_lexer / tiledP_of_lexer) every tree that the models return — without f-string pieces, or "
+              "WITH f-string literals anywhere in the tree when the f-string tokens are tied to the source "
+              "(FTied / FTiedP) and their replacement-field expressions are f-string-free (parseR_rangesOk_fstr, "
+              "parseRProgram_rangesOk_fstr) — a single "
               "expression or a whole Module / Interactive / Expression parse with all statement, pattern, handler, case, "
               "alias, with-item, type-parameter and parameter nodes — satisfies all structural clauses of the property "
               "(inside the input, on UTF-8 boundaries, start <= end, parents enclose children with the decorator "
@@ -237,11 +253,11 @@ LEVEL_TEXT = ("Machine-checked Lean 4, for every input and fuel: (1) erasing the
               "in all three modes: PROG's corpus, directed parameter-list / with-item / rare-production shapes, generated "
               "programs with CR / CRLF / tabs / comments / BOM / continuation lines, stdlib files); the real trees are "
               "judged by an independent oracle (structure, CPython 3.11 positions, extent rules).")
-LEVEL_NOTE = ("Partial: at the EXPRESSION level f-string literals are inside the structural theorem (parseR_rangesOk_fstr: "
-              "Tiled + FTied, any position in the tree) except f-strings nested inside a replacement field; the statement "
-              "with `Tiled` alone is refuted (parseR_rangesOk_fails: the token value must be tied to its span, FTied; a CR LF "
-              "folded by the real lexer breaks the tie — listed finding). At the PROGRAM level f-string pieces are still "
-              "excluded (plainM). Exact extents of program-level nodes "
+LEVEL_NOTE = ("Partial: f-string literals are inside the structural theorems of both models under the tie FTied / FTiedP "
+              "(parseR_rangesOk_fstr, parseRProgram_rangesOk_fstr: any position in the tree) except f-strings nested inside a "
+              "replacement field; the statement with `Tiled` alone is refuted (parseR_rangesOk_fails: the token value must be "
+              "tied to its span; a CR LF folded by the real lexer breaks the tie — listed finding). Exact extents of "
+              "program-level nodes "
               "other than small statements are proved as windows / token-aligned ends, not as equations with the token "
               "span (compared per input). Trusted: fidelity of the hand-written models as sampled by the correspondence "
               "streams.")
